@@ -379,8 +379,8 @@ def run_lib_case(libexe, drv, case, vline="variant 0 0"):
         ncalls += len(calls)
         msg = oracle_fini(dt, list(cur.items()), calls)
         if msg:
-            hist = " ".join(("store(slot %d -> key %d, %d)" % (sl, 0, v)) if sl >= 0 else "delete+create(slot %d)" % (-2 - sl)
-                            for sl, v in sc[:8])
+            hist = "; ".join(("setspecific(key %d, %d)" % (o[1], o[2])) if o[0] == "s" else
+                             "key_delete(%d) + key_create -> same index" % o[1] for o in ops[:10])
             return "thread %d (termination kind %d: %s; history: %s) - %s" % (
                 i, kind, ["return", "myth_exit", "cancel"][kind], hist, msg), len(ths), ncalls, 0, out
         model_cases.append(finib_case(sorted(dt), ops)); got_all.append(calls); comparable.append(lifo)
